@@ -832,6 +832,10 @@ def _work(job):
     # BLAS threads are limited by the caller's environment (./check exports OMP_NUM_THREADS=1)
     from . import exprcheck as X
     X.guarded = _robust_guarded          # this worker process only
+    try:
+        os.nice(5)                       # the Lean build / drivers of the main process go first
+    except OSError:
+        pass
     import sys
     def hook(u):                         # a watchdog tick that lands in a weakref callback is reported as 'unraisable': not an event
         if not isinstance(u.exc_value, X.Hang):
